@@ -196,9 +196,16 @@ func HC03Walk() {
 		s.extNodes = append(s.extNodes, ext)
 		vAssert(ext.parent == at, "extend:parent")
 	}
-	in := []byte("x")
-	s.raw, s.limit = in, vUint32("limit")
-	res := root.match(in, s.limit)
+	// through the public entry point: Detect must hand the whole tree walk (root's children first)
+	// exactly its input and the current limit, also for empty and nil input
+	iv := vChoice("input", 3)
+	in := [][]byte{[]byte("x"), {}, nil}[iv]
+	lim := []uint32{3072, 0, 1}[iv]
+	old := readLimit
+	SetLimit(lim)
+	s.raw, s.limit = in, lim
+	res := Detect(in)
+	SetLimit(old)
 	want := s.oracleWalk()
 	l1CheckChain(res, want, "walk")
 	// every ancestor of the reported node matched; no child of it matched
@@ -245,4 +252,23 @@ func HC03Walk() {
 	}
 	vAssert(depth <= 8, "chain-finite")
 	vReach("end")
+}
+
+// l1DFSFind is the independent oracle for Lookup: the first node in pre-order (a node before its
+// children, children in priority order) whose type or one of whose aliases equals name.
+func l1DFSFind(n *MIME, name string) *MIME {
+	if n.mime == name {
+		return n
+	}
+	for _, a := range n.aliases {
+		if a == name {
+			return n
+		}
+	}
+	for _, c := range n.children {
+		if f := l1DFSFind(c, name); f != nil {
+			return f
+		}
+	}
+	return nil
 }
